@@ -39,7 +39,8 @@ def corpus():
 
 
 def gen_cases(tier):
-    n = 24 if tier == 'quick' else 80
+    n = 20 if tier == 'quick' else 80
+    n_sweeps = 1 if tier == 'quick' else 5
     cases = []
     for c in corpus():
         c = dict(c)
@@ -50,6 +51,12 @@ def gen_cases(tier):
         texts, meta = G.gen_chain(rnd, maxlen=4 if tier == 'quick' else 6)
         cases.append({'id': len(cases), 'kind': 'chain', 'tag': f'C10chain{i}', 'chain': texts, 'direct': True,
                       'to_empty': True, 'detail': False, 'meta': meta})
+    # forced chain sweep: every family (alias / computed-global lifecycles, re-parenting at two positions, renamed
+    # scalars inside collection types, adjacent bases dropped, rename + drop-as-base) once per sweep
+    for k in range(n_sweeps):
+        for j, (texts, meta) in enumerate(G.gen_chain_sweep(lib.rng(f'C10sweep{k}'))):
+            cases.append({'id': len(cases), 'kind': 'chainsweep', 'tag': f'C10sweep{k}/{meta["family"]}', 'chain': texts,
+                          'direct': True, 'to_empty': True, 'detail': False, 'meta': meta})
     # malformed / edge stream: a chain whose middle target is not a valid schema must stop there
     rnd = lib.rng('C10malformed')
     for i in range(4 if tier == 'quick' else 20):
@@ -83,6 +90,9 @@ def classify_cmp(cmpres, chain_texts, i):
         return 'C02-drop-overloaded-default'
     if items and items <= {('Link', 'owned'), ('Property', 'owned')} and 'drop owned' in (cmpres.get('own_diff') or '').lower():
         return 'C02-move-to-parent-reowned'
+    if items and all(f in ('bases', 'ancestors') for _, f in items) and 'drop extending' in (cmpres.get('own_diff') or '').lower() \
+            and any(G.adjacent_bases_dropped(chain_texts[k], chain_texts[k + 1]) for k in range(min(i, len(chain_texts) - 1))):
+        return 'C02-drop-adjacent-bases'
     if isinstance(cmpres, dict) and 'drop extending' in (cmpres.get('own_diff') or '').lower():
         return 'C02-drop-extending-renamed-base'
     return None
@@ -335,7 +345,7 @@ def run(tier):
                                                                   if st['direct']['status'] == 'accepted' else '')] += 1
                 if c.get('to_empty') and i == len(c['chain']) and not st.get('left_after_empty'):
                     n_empty_ok += 1
-        if acc >= 3 and c['kind'] == 'chain':
+        if acc >= 3 and c['kind'] in ('chain', 'chainsweep'):
             distinct.add(hashlib.sha256(json.dumps(c['chain']).encode()).hexdigest())
     rep.coverage.update({
         'evaluations': len(cases) + len(hlines),
@@ -351,6 +361,8 @@ def run(tier):
         'traces_validated_against_impl': n_cmp,
         'chains': len(cases),
         'chain_lengths': dict(sorted(lens.items())),
+        'chain_sweep_families': dict(Counter(c['meta']['family'] for c in cases if c['kind'] == 'chainsweep')),
+        'sdl_text_compared': True,
         'steps_run': n_steps,
         'step_status': dict(status),
         'steps_not_accepted_classes': dict(rejects.most_common(20)),
